@@ -2128,7 +2128,7 @@ def reset_plugins(scope: str) -> None:
         return
     [
         remove_plugin(scope, plugin)
-        for plugin in _plugins[scope]
+        for plugin in [*_plugins[scope]]
     ]
 
 def run_plugins(scope: str, tape: Tape, stack: Stack, cache: dict) -> list:
